@@ -15,7 +15,7 @@ func checkMultisigVerify(r *Run, rule string) {
 	if f == nil {
 		return
 	}
-	ms := "out:multiSig←(*github.com/tendermint/go-amino.Codec).UnmarshalBinaryBare(global:crypto.cdc, param:multiSignature, addr:multiSig)"
+	ms := "out:crypto.MultiSig←(*github.com/tendermint/go-amino.Codec).UnmarshalBinaryBare(global:crypto.cdc, param:multiSignature, addr:crypto.MultiSig)"
 	n := "crypto.MultiSig.NumOfSigs(" + ms + ")"
 	// the loop over the components may be counted (i := 0; i < NumOfSigs; i++) or range over the keys (same bound under
 	// the count==keys guard); go/ssa spells the index phi((loop+1), 0) resp. (phi(-1, loop) + 1)
@@ -29,7 +29,7 @@ func checkMultisigVerify(r *Run, rule string) {
 		}
 		nTrue++
 		r.requireAtoms(rule, "multisig.VerifyBytes/true-return", ret, P.Guards(ret, 0), []req{
-			{"decoded", `^isnil\(\(\*github\.com/tendermint/go-amino\.Codec\)\.UnmarshalBinaryBare\(global:crypto\.cdc, param:multiSignature, addr:multiSig\)\)$`},
+			{"decoded", `^isnil\(\(\*github\.com/tendermint/go-amino\.Codec\)\.UnmarshalBinaryBare\(global:crypto\.cdc, param:multiSignature, addr:crypto.MultiSig\)\)$`},
 			{"count==keys", `^\(` + q(n) + ` == len\(param:pms\.PublicKeys\)\)$`},
 			{"loop-finished", `^!\(` + idxRe + ` < ` + boundRe + `\)$`},
 		})
